@@ -922,7 +922,7 @@ static void do_start(int h)
   memset(&o, 0, sizeof o);
   const char *prog = "vc";
   char flags[128] = "";
-  int argvnull = 0, usewd = 0, rfile = 0, rpath = 0, want_ident = 0, nofile = 0;
+  int argvnull = 0, usewd = 0, rfile = 0, rpath = 0, want_ident = 0, nofile = 0, hlow = 0;
   const char *runex = NULL, *argvx = NULL, *envx = NULL, *wdx = NULL, *progx = NULL;
   const char *pathmode = NULL, *handlemode = NULL;
   long inputsz = -1;
@@ -969,6 +969,7 @@ static void do_start(int h)
     else if ((v = kv(t, "text"))) { c->text = atoi(v); if (c->text) strcat(flags, " text"); }
     else if ((v = kv(t, "runex"))) runex = v;
     else if ((v = kv(t, "nofile"))) nofile = atoi(v);
+    else if ((v = kv(t, "hlow"))) hlow = atoi(v);
     else if ((v = kv(t, "rfile"))) rfile = atoi(v);
     else if ((v = kv(t, "rpath"))) rpath = atoi(v);
     else if ((v = kv(t, "argvx"))) argvx = v;
@@ -1003,7 +1004,8 @@ static void do_start(int h)
     if (rd[s]->type == REPROC_REDIRECT_PATH) rd[s]->path = paths[s];
     if (rd[s]->type == REPROC_REDIRECT_HANDLE || rd[s]->handle == -2) {
       if (c->handles[s] < 0)
-        c->handles[s] = move_high(open(paths[s], O_RDWR | O_CREAT | O_CLOEXEC, 0644));
+        c->handles[s] = hlow ? open(paths[s], O_RDWR | O_CREAT, 0644)  // low number, inheritable
+                             : move_high(open(paths[s], O_RDWR | O_CREAT | O_CLOEXEC, 0644));
       rd[s]->handle = c->handles[s];
       if (handlemode && !strcmp(handlemode, "closed")) {
         close(c->handles[s]);
@@ -1013,7 +1015,8 @@ static void do_start(int h)
     }
     if (rd[s]->type == REPROC_REDIRECT_FILE) {
       if (!c->files[s]) {
-        int fd = move_high(open(paths[s], O_RDWR | O_CREAT | O_CLOEXEC, 0644));
+        int fd = hlow ? open(paths[s], O_RDWR | O_CREAT, 0644)
+                      : move_high(open(paths[s], O_RDWR | O_CREAT | O_CLOEXEC, 0644));
         c->files[s] = fdopen(fd, s == 0 ? "r" : "w");
       }
       rd[s]->file = c->files[s];
@@ -1574,6 +1577,24 @@ static void run_script(void)
       } else if (chdir(p) < 0) r = -errno;
       fprintf(L, "{\"%s\":%d}\n", t, r);
       free(p);
+    } else if (!strcmp(t, "CWDPAD")) {
+      // CWDPAD n : create and enter nested directories until getcwd() is exactly n bytes long
+      long target = nextlong(0);
+      char cur[4200];
+      long len = getcwd(cur, sizeof cur) ? (long) strlen(cur) : 0;
+      int r = 0;
+      while (len > 0 && len < target && r == 0) {
+        long room = target - len - 1;  // after the slash
+        if (room <= 0) break;
+        long take = room > 60 ? (room - 60 == 1 ? 59 : 60) : room;
+        char comp[64];
+        memset(comp, 'd', (size_t) take);
+        comp[take] = 0;
+        mkdir(comp, 0755);
+        if (chdir(comp) < 0) r = -errno;
+        len += take + 1;
+      }
+      fprintf(L, "{\"CWDPAD\":%d,\"len\":%ld}\n", r, len);
     } else if (!strcmp(t, "MASK")) {
       const char *hx = nexttok();
       unsigned long bits = hx ? strtoul(hx, NULL, 16) : 0;
